@@ -36,10 +36,11 @@ ASSUMPTIONS = [
 def bounds(tier):
     if tier == "quick":
         return {"sizes": [[1, 1], [2, 1], [1, 2], [2, 2], [1, 0], [0, 2], [3, 1]], "easy": [[0, 0], [1, 0], [0, 2], [1, 2]],
-                "ratios": [0.5, 0.34, 0.99], "switch_sizes": [99, 100, 101], "deviations": 1}
+                "ratios": [0.5, 0.34, 0.99], "switch_sizes": [99, 100, 101], "deviations": 1,
+                "strata_easy": list(range(0, 61))}
     return {"sizes": [[1, 1], [2, 1], [1, 2], [2, 2], [1, 0], [0, 2], [3, 1], [1, 3], [3, 2], [2, 3], [3, 3], [0, 1]],
             "easy": [[0, 0], [1, 0], [0, 2], [1, 2], [3, 3], [2, 0]], "ratios": [0.5, 0.34, 0.99, 0.67],
-            "switch_sizes": [99, 100, 101], "deviations": 2}
+            "switch_sizes": [99, 100, 101], "deviations": 2, "strata_easy": list(range(0, 201))}
 
 
 def work(tier, seed):
@@ -54,6 +55,13 @@ def work(tier, seed):
                 heavy = P + Q + ep + en >= 6
                 items.append({"kind": "tree", "blocks": [list(x) for x in bl], "easy": [ep, en], "cfg": cfg,
                               "heavy": heavy})
+    # stratified sampling with many easy samples: the four strata must be preserved exactly for every
+    # (hard, easy) count pair (their quotient is rounding-sensitive); by_label trees are small
+    for hp_, hn_ in ((1, 1), (2, 1), (3, 2), (4, 1)):
+        for e in b["strata_easy"]:
+            items.append({"kind": "strata", "hp": hp_, "hn": hn_, "easy": [e, (e * 7) % 11]})
+    for hp_, hn_ in ((1, 1), (2, 1), (1, 2)):
+        items.append({"kind": "two_samples", "hp": hp_, "hn": hn_})
     for hp in b["switch_sizes"]:
         for hn in b["switch_sizes"]:
             for smoothing in (False, True):
@@ -216,6 +224,10 @@ def run(item, ctx, tier, seed):
 
     if item["kind"] == "switch":
         return _run_switch(item, ctx, b)
+    if item["kind"] == "strata":
+        return _run_strata(item, ctx)
+    if item["kind"] == "two_samples":
+        return _run_two_samples(item, ctx)
 
     blocks = [tuple(x) for x in item["blocks"]]
     ep, en = item["easy"]
@@ -443,4 +455,70 @@ def _run_switch(item, ctx, b):
     ctx.add("switch_runs", runs)
     ctx.sample({"kind": "switch", "hard_pos": hp, "hard_neg": hn, "smoothing": smoothing, "runs": runs,
                 "deviation_bound": d, "methods_seen": sorted(seen_methods)})
+    return None
+
+
+def _run_strata(item, ctx):
+    from score_analysis import BootstrapConfig, Scores
+
+    hp, hn = item["hp"], item["hn"]
+    ep, en = item["easy"]
+    pos = [1.0 + 0.5 * i for i in range(hp)]
+    neg = [0.25 * i for i in range(hn)]
+    src = Scores(pos[::-1], neg[::-1], nb_easy_pos=ep, nb_easy_neg=en)
+    for method in ("replacement", "single_pass", "dynamic"):
+        cfgobj = BootstrapConfig(sampling_method=method, stratified_sampling="by_label")
+        case = {"pos": pos, "neg": neg, "easy": [ep, en], "method": method, "stratified": "by_label"}
+        ctx.state()
+        mass = 0.0
+        for orc, smp in rngtree.explore(lambda o: src.bootstrap_sample(cfgobj), observe=_outcome, twice=False):
+            ctx.tick()
+            mass += orc.prob
+            if ep + en:
+                ctx.nontrivial()
+            eff = "replacement" if method == "dynamic" else method
+            _wellformed(ctx, dict(case, answers=orc.choices), src, smp, pos, neg, ep, en, ("pos", "pos"), eff, "by_label", False)
+        if abs(mass - 1.0) > 1e-9:
+            ctx.fail("leaf-probabilities-sum-to-one", case, observed=mass, expected=1.0)
+    ctx.sample({"kind": "strata", "hard": [hp, hn], "easy": [ep, en]})
+    return None
+
+
+def _run_two_samples(item, ctx):
+    """A caller holds several samples of one source at once: drawing the next one must not change the earlier ones."""
+    from score_analysis import BootstrapConfig, Scores
+
+    hp, hn = item["hp"], item["hn"]
+    pos = [1.0 + 0.5 * i for i in range(hp)]
+    neg = [0.25 * i for i in range(hn)]
+    for ep, en in ((0, 0), (1, 0)):
+        src = Scores(pos[::-1], neg[::-1], nb_easy_pos=ep, nb_easy_neg=en)
+        for method, strat in (("single_pass", "by_label"), ("single_pass", None), ("replacement", "by_label"), ("replacement", None)):
+            if strat is None and hp + hn + ep + en > 3:
+                continue
+            cfgobj = BootstrapConfig(sampling_method=method, stratified_sampling=strat)
+            case = {"pos": pos, "neg": neg, "easy": [ep, en], "method": method, "stratified": strat,
+                    "history": ["s1 = bootstrap_sample()", "s2 = bootstrap_sample()", "inspect s1"]}
+            ctx.state()
+
+            def fn(orc):
+                s1 = src.bootstrap_sample(cfgobj)
+                snap = _outcome(s1)
+                s2 = src.bootstrap_sample(cfgobj)
+                return s1, snap, s2
+
+            for orc, (s1, snap, s2) in rngtree.explore(fn, twice=False):
+                ctx.tick()
+                ctx.nontrivial()
+                c2 = dict(case, answers=orc.choices)
+                if _outcome(s1) != snap:
+                    ctx.fail("earlier-sample-unchanged-by-later-sampling", c2, observed=_outcome(s1), expected=snap)
+                    break
+                _wellformed(ctx, c2, src, s1, pos, neg, ep, en, ("pos", "pos"), method, strat, False)
+                _wellformed(ctx, c2, src, s2, pos, neg, ep, en, ("pos", "pos"), method, strat, False)
+                if (np.asarray(src.pos, dtype=float).tolist() != sorted(pos) or np.asarray(src.neg, dtype=float).tolist() != sorted(neg)
+                        or src.nb_easy_pos != ep or src.nb_easy_neg != en):
+                    ctx.fail("source-unchanged-by-sampling", c2, observed=[src.pos, src.neg], expected=[pos, neg])
+                    break
+    ctx.sample({"kind": "two_samples", "hard": [hp, hn]})
     return None
